@@ -1059,6 +1059,10 @@ class SX:
     # ---- attribute access
     def load_attr(self, obj: V, attr: str, st: State, frame, node) -> list:
         if isinstance(obj, Q):
+            if attr.startswith('__') and not attr.endswith('__') and not self.private_visible(obj.kind, frame.get('cls'), attr):
+                # name mangling: `x.__value` written inside class C reads `_C__value`, which only objects
+                # initialised by C's own code carry
+                return [Outcome(st, 'raise', 'AttributeError', getattr(node, 'lineno', 0))]
             if attr in ('value',) or attr.endswith('__value'):
                 return [(st, N(obj.term / self.ufactor(obj.kind, obj.unit), 'float' if False else None))]
             if attr == 'unit' or attr.endswith('__unit'):
@@ -1092,6 +1096,21 @@ class SX:
         if isinstance(obj, (Unk, Fv, Sv, Tv, NoneV, N, Bsym, Bv, Uv)):
             return [(st, Unk(f'{self.show(obj)}.{attr}'))]
         raise CannotDecide(f'attribute {attr} of {obj!r}')
+
+    def private_visible(self, kind, cls, attr) -> bool:
+        """does an instance of `kind` carry the private attribute `attr` as mangled inside class `cls`?"""
+        if not cls or cls not in self.model.classes or kind not in self.model.classes:
+            return True
+        if cls not in self.model.mro(kind):
+            return False
+        key = (cls, attr)
+        cache = self.__dict__.setdefault('_priv_cache', {})
+        if key not in cache:
+            ci = self.model.classes[cls]
+            cache[key] = any(isinstance(n, ast.Attribute) and isinstance(n.ctx, ast.Store) and n.attr == attr
+                             and isinstance(n.value, ast.Name) and n.value.id == 'self'
+                             for n in ast.walk(ci.node))
+        return cache[key]
 
     def leaf_exact(self, obj: Ov) -> Ov:
         """an object whose static class is concrete and has no subclasses has exactly that class"""
@@ -1613,6 +1632,11 @@ class SX:
     def num_arg(self, v):
         if isinstance(v, (N, Dyn)):
             return v.term
+        if isinstance(v, Bv):
+            return Rat.const(1 if v.b else 0)
+        if isinstance(v, Bsym):
+            # a truth value used as a number (True == 1): an opaque 0/1 atom named by the predicate
+            return Rat.atom('bool01[' + v.guard.show(self.ctx) + ']')
         raise CannotDecide(f'numeric argument expected, got {v!r}')
 
     def apply_name(self, n, name, args, kwargs, st, frame) -> list:
